@@ -37,56 +37,76 @@ def occ(v, out):
         occ(v["inner"], out)
 
 
+def occ_sets(values_ns_out, cfg, path):
+    """(union of occurrences over the locales, per-locale summaries, value kinds) read from the locales' final values"""
+    total = {"vars": {}, "comps": set(), "counts": {}}
+    per_locale, kinds = [], set()
+    for l in cfg["locales"]:
+        v = locale_value_at(values_ns_out, l, path)
+        if v is None or v["t"] in ("default", "subkeys"):
+            continue
+        one = {"vars": {}, "comps": set(), "counts": {}}
+        occ(v, one)
+        per_locale.append(json.dumps({"v": sorted(one["vars"]), "c": sorted(one["comps"]), "n": sorted(one["counts"])}))
+        kinds.add(v["t"] if v["t"] != "lit" else "lit:" + v["k"])
+        occ(v, total)
+    return total, per_locale, kinds
+
+
+def judge(val, total, kinds):
+    """the builder fields `val` against the occurrence sets; returns (what, expected, got) or None"""
+    if "lit" in val:
+        exp_lit = len(kinds) == 1 and next(iter(kinds)).startswith("lit:")
+        return None if exp_lit else ("literal accessor for non-literal", sorted(kinds), val)
+    k = val["interpol"]
+    got_vars = {n: {json.dumps(f, sort_keys=True) for f in info["fmts"]} for n, info in k["vars"]}
+    got_counts = {n: info["count"] for n, info in k["vars"] if info["count"] is not None}
+    exp_vars = dict(total["vars"])
+    for ck in total["counts"]:
+        exp_vars.setdefault(ck, set())
+    bad = None
+    if set(k["comps"]) != total["comps"]:
+        bad = ("components", sorted(total["comps"]), sorted(k["comps"]))
+    elif set(got_vars) != set(exp_vars):
+        bad = ("variables", sorted(exp_vars), sorted(got_vars))
+    else:
+        for n in exp_vars:
+            if exp_vars[n] - got_vars[n]:
+                bad = ("formatters of " + n, sorted(exp_vars[n]), sorted(got_vars[n]))
+        for ck, tys in total["counts"].items():
+            if len(tys) == 1 and got_counts.get(ck) != next(iter(tys)):
+                bad = ("count type of " + ck, sorted(tys), got_counts.get(ck))
+            if len(tys) > 1:
+                bad = ("conflicting count kinds accepted for " + ck, sorted(tys), got_counts.get(ck))
+    return bad
+
+
 def oracle(ctx, p, o, i):
     if "ok" not in o["ci"]:
         return
     res = o["impl"]["result"]["ok"]
     cfg = o["impl"]["cfg"]
+    # the values after foreign-key resolution as the *model* computes them from the same files: by C06_populate_subst /
+    # C06_resolveNode_sound they are the references' targets under substitution, so their occurrences are what the
+    # source says the key uses — an expectation that does not go through the implementation's own resolution
+    mres = o["model"]["ok"] if o.get("model") and "ok" in o["model"] and not project_unmodelled(p) else None
     for ns_out in res["nss"]:
+        m_ns = next((n for n in mres["nss"] if n["key"] == ns_out["key"]), None) if mres else None
         for path, lv in iter_bki(ns_out["keys"]):
-            total = {"vars": {}, "comps": set(), "counts": {}}
-            per_locale = []
-            kinds = set()
-            for l in cfg["locales"]:
-                v = locale_value_at(ns_out, l, path)
-                if v is None or v["t"] in ("default", "subkeys"):
-                    continue
-                one = {"vars": {}, "comps": set(), "counts": {}}
-                occ(v, one)
-                per_locale.append(json.dumps({"v": sorted(one["vars"]), "c": sorted(one["comps"]), "n": sorted(one["counts"])}))
-                kinds.add(v["t"] if v["t"] != "lit" else "lit:" + v["k"])
-                occ(v, total)
+            total, per_locale, kinds = occ_sets(ns_out, cfg, path)
             val = lv["value"]
             ctx.seen({"path": path, "per_locale": per_locale}, nontrivial=len(set(per_locale)) > 1)
-            if "lit" in val:
-                exp_lit = len(kinds) == 1 and next(iter(kinds)).startswith("lit:")
-                if not exp_lit:
-                    report_violation(ctx, "args:literal-accessor-for-non-literal", {"case": project_text(p), "key_path": list(path),
-                                                                                  "kinds": sorted(kinds), "implementation": val})
-                continue
-            k = val["interpol"]
-            got_vars = {n: {json.dumps(f, sort_keys=True) for f in info["fmts"]} for n, info in k["vars"]}
-            got_counts = {n: info["count"] for n, info in k["vars"] if info["count"] is not None}
-            exp_vars = dict(total["vars"])
-            for ck in total["counts"]:
-                exp_vars.setdefault(ck, set())
-            bad = None
-            if set(k["comps"]) != total["comps"]:
-                bad = ("components", sorted(total["comps"]), sorted(k["comps"]))
-            elif set(got_vars) != set(exp_vars):
-                bad = ("variables", sorted(exp_vars), sorted(got_vars))
-            else:
-                for n in exp_vars:
-                    if exp_vars[n] - got_vars[n]:
-                        bad = ("formatters of " + n, sorted(exp_vars[n]), sorted(got_vars[n]))
-                for ck, tys in total["counts"].items():
-                    if len(tys) == 1 and got_counts.get(ck) != next(iter(tys)):
-                        bad = ("count type of " + ck, sorted(tys), got_counts.get(ck))
-                    if len(tys) > 1:
-                        bad = ("conflicting count kinds accepted for " + ck, sorted(tys), got_counts.get(ck))
+            bad = judge(val, total, kinds)
+            how = "union of the occurrences in each locale's final value (implementation's dump)"
+            if bad is None and m_ns is not None:
+                mtotal, _, mkinds = occ_sets(m_ns, cfg, path)
+                bad = judge(val, mtotal, mkinds)
+                how = "union of the occurrences in each locale's value with references replaced by their targets under substitution (Lean model of resolution, C06 theorems)"
+                ctx.count("keys_judged_against_resolved_source")
             if bad:
-                report_violation(ctx, "args:" + bad[0].split(" of ")[0], {"case": project_text(p), "key_path": list(path), "what": bad[0],
-                                                                         "expected_by_spec": bad[1], "implementation": bad[2]})
+                sig = "args:literal-accessor-for-non-literal" if bad[0].startswith("literal accessor") else "args:" + bad[0].split(" of ")[0]
+                report_violation(ctx, sig, {"case": project_text(p), "key_path": list(path), "what": bad[0], "expected_from": how,
+                                            "expected_by_spec": bad[1], "implementation": bad[2]})
     if i % 157 == 0:
         ctx.sample({"files": proj.file_list(p)[:2]})
 
